@@ -28,3 +28,378 @@ package kv
 //@   call DelCtx#0: assert arg_recv == nd && len(arg_keys) == 1 && arg_keys[0] == key && arg_ctx == ctx
 //@   loop 0: modifies rdsDels
 //@   loop 0: invariant true
+
+// every single-key operation of the cluster store is served by the node the ring maps THAT key to, under the same key
+// (generated mechanically from the shape `node, err := cs.getRedis(key); ...; node.XCtx(ctx, key, ...)`)
+//@ func (cs clusterStore) DecrCtx
+//@   property C15
+//@   requires cs.dispatcher != nil && hash.hInv(cs.dispatcher)
+//@   ghost at after getRedis#0: nd = ret0
+//@   call getRedis#0: assert arg_key == key
+//@   call DecrCtx#0: assert arg_recv == nd && arg_key == key
+//@ func (cs clusterStore) DecrbyCtx
+//@   property C15
+//@   requires cs.dispatcher != nil && hash.hInv(cs.dispatcher)
+//@   ghost at after getRedis#0: nd = ret0
+//@   call getRedis#0: assert arg_key == key
+//@   call DecrbyCtx#0: assert arg_recv == nd && arg_key == key
+//@ func (cs clusterStore) ExistsCtx
+//@   property C15
+//@   requires cs.dispatcher != nil && hash.hInv(cs.dispatcher)
+//@   ghost at after getRedis#0: nd = ret0
+//@   call getRedis#0: assert arg_key == key
+//@   call ExistsCtx#0: assert arg_recv == nd && arg_key == key
+//@ func (cs clusterStore) ExpireCtx
+//@   property C15
+//@   requires cs.dispatcher != nil && hash.hInv(cs.dispatcher)
+//@   ghost at after getRedis#0: nd = ret0
+//@   call getRedis#0: assert arg_key == key
+//@   call ExpireCtx#0: assert arg_recv == nd && arg_key == key
+//@ func (cs clusterStore) ExpireatCtx
+//@   property C15
+//@   requires cs.dispatcher != nil && hash.hInv(cs.dispatcher)
+//@   ghost at after getRedis#0: nd = ret0
+//@   call getRedis#0: assert arg_key == key
+//@   call ExpireatCtx#0: assert arg_recv == nd && arg_key == key
+//@ func (cs clusterStore) GetCtx
+//@   property C15
+//@   requires cs.dispatcher != nil && hash.hInv(cs.dispatcher)
+//@   ghost at after getRedis#0: nd = ret0
+//@   call getRedis#0: assert arg_key == key
+//@   call GetCtx#0: assert arg_recv == nd && arg_key == key
+//@ func (cs clusterStore) HdelCtx
+//@   property C15
+//@   requires cs.dispatcher != nil && hash.hInv(cs.dispatcher)
+//@   ghost at after getRedis#0: nd = ret0
+//@   call getRedis#0: assert arg_key == key
+//@   call HdelCtx#0: assert arg_recv == nd && arg_key == key
+//@ func (cs clusterStore) HexistsCtx
+//@   property C15
+//@   requires cs.dispatcher != nil && hash.hInv(cs.dispatcher)
+//@   ghost at after getRedis#0: nd = ret0
+//@   call getRedis#0: assert arg_key == key
+//@   call HexistsCtx#0: assert arg_recv == nd && arg_key == key
+//@ func (cs clusterStore) HgetCtx
+//@   property C15
+//@   requires cs.dispatcher != nil && hash.hInv(cs.dispatcher)
+//@   ghost at after getRedis#0: nd = ret0
+//@   call getRedis#0: assert arg_key == key
+//@   call HgetCtx#0: assert arg_recv == nd && arg_key == key
+//@ func (cs clusterStore) HgetallCtx
+//@   property C15
+//@   requires cs.dispatcher != nil && hash.hInv(cs.dispatcher)
+//@   ghost at after getRedis#0: nd = ret0
+//@   call getRedis#0: assert arg_key == key
+//@   call HgetallCtx#0: assert arg_recv == nd && arg_key == key
+//@ func (cs clusterStore) HincrbyCtx
+//@   property C15
+//@   requires cs.dispatcher != nil && hash.hInv(cs.dispatcher)
+//@   ghost at after getRedis#0: nd = ret0
+//@   call getRedis#0: assert arg_key == key
+//@   call HincrbyCtx#0: assert arg_recv == nd && arg_key == key
+//@ func (cs clusterStore) HkeysCtx
+//@   property C15
+//@   requires cs.dispatcher != nil && hash.hInv(cs.dispatcher)
+//@   ghost at after getRedis#0: nd = ret0
+//@   call getRedis#0: assert arg_key == key
+//@   call HkeysCtx#0: assert arg_recv == nd && arg_key == key
+//@ func (cs clusterStore) HlenCtx
+//@   property C15
+//@   requires cs.dispatcher != nil && hash.hInv(cs.dispatcher)
+//@   ghost at after getRedis#0: nd = ret0
+//@   call getRedis#0: assert arg_key == key
+//@   call HlenCtx#0: assert arg_recv == nd && arg_key == key
+//@ func (cs clusterStore) HmgetCtx
+//@   property C15
+//@   requires cs.dispatcher != nil && hash.hInv(cs.dispatcher)
+//@   ghost at after getRedis#0: nd = ret0
+//@   call getRedis#0: assert arg_key == key
+//@   call HmgetCtx#0: assert arg_recv == nd && arg_key == key
+//@ func (cs clusterStore) HsetCtx
+//@   property C15
+//@   requires cs.dispatcher != nil && hash.hInv(cs.dispatcher)
+//@   ghost at after getRedis#0: nd = ret0
+//@   call getRedis#0: assert arg_key == key
+//@   call HsetCtx#0: assert arg_recv == nd && arg_key == key
+//@ func (cs clusterStore) HsetnxCtx
+//@   property C15
+//@   requires cs.dispatcher != nil && hash.hInv(cs.dispatcher)
+//@   ghost at after getRedis#0: nd = ret0
+//@   call getRedis#0: assert arg_key == key
+//@   call HsetnxCtx#0: assert arg_recv == nd && arg_key == key
+//@ func (cs clusterStore) HmsetCtx
+//@   property C15
+//@   requires cs.dispatcher != nil && hash.hInv(cs.dispatcher)
+//@   ghost at after getRedis#0: nd = ret0
+//@   call getRedis#0: assert arg_key == key
+//@   call HmsetCtx#0: assert arg_recv == nd && arg_key == key
+//@ func (cs clusterStore) HvalsCtx
+//@   property C15
+//@   requires cs.dispatcher != nil && hash.hInv(cs.dispatcher)
+//@   ghost at after getRedis#0: nd = ret0
+//@   call getRedis#0: assert arg_key == key
+//@   call HvalsCtx#0: assert arg_recv == nd && arg_key == key
+//@ func (cs clusterStore) IncrCtx
+//@   property C15
+//@   requires cs.dispatcher != nil && hash.hInv(cs.dispatcher)
+//@   ghost at after getRedis#0: nd = ret0
+//@   call getRedis#0: assert arg_key == key
+//@   call IncrCtx#0: assert arg_recv == nd && arg_key == key
+//@ func (cs clusterStore) IncrbyCtx
+//@   property C15
+//@   requires cs.dispatcher != nil && hash.hInv(cs.dispatcher)
+//@   ghost at after getRedis#0: nd = ret0
+//@   call getRedis#0: assert arg_key == key
+//@   call IncrbyCtx#0: assert arg_recv == nd && arg_key == key
+//@ func (cs clusterStore) LlenCtx
+//@   property C15
+//@   requires cs.dispatcher != nil && hash.hInv(cs.dispatcher)
+//@   ghost at after getRedis#0: nd = ret0
+//@   call getRedis#0: assert arg_key == key
+//@   call LlenCtx#0: assert arg_recv == nd && arg_key == key
+//@ func (cs clusterStore) LindexCtx
+//@   property C15
+//@   requires cs.dispatcher != nil && hash.hInv(cs.dispatcher)
+//@   ghost at after getRedis#0: nd = ret0
+//@   call getRedis#0: assert arg_key == key
+//@   call LindexCtx#0: assert arg_recv == nd && arg_key == key
+//@ func (cs clusterStore) LpopCtx
+//@   property C15
+//@   requires cs.dispatcher != nil && hash.hInv(cs.dispatcher)
+//@   ghost at after getRedis#0: nd = ret0
+//@   call getRedis#0: assert arg_key == key
+//@   call LpopCtx#0: assert arg_recv == nd && arg_key == key
+//@ func (cs clusterStore) LpushCtx
+//@   property C15
+//@   requires cs.dispatcher != nil && hash.hInv(cs.dispatcher)
+//@   ghost at after getRedis#0: nd = ret0
+//@   call getRedis#0: assert arg_key == key
+//@   call LpushCtx#0: assert arg_recv == nd && arg_key == key
+//@ func (cs clusterStore) LrangeCtx
+//@   property C15
+//@   requires cs.dispatcher != nil && hash.hInv(cs.dispatcher)
+//@   ghost at after getRedis#0: nd = ret0
+//@   call getRedis#0: assert arg_key == key
+//@   call LrangeCtx#0: assert arg_recv == nd && arg_key == key
+//@ func (cs clusterStore) LremCtx
+//@   property C15
+//@   requires cs.dispatcher != nil && hash.hInv(cs.dispatcher)
+//@   ghost at after getRedis#0: nd = ret0
+//@   call getRedis#0: assert arg_key == key
+//@   call LremCtx#0: assert arg_recv == nd && arg_key == key
+//@ func (cs clusterStore) PersistCtx
+//@   property C15
+//@   requires cs.dispatcher != nil && hash.hInv(cs.dispatcher)
+//@   ghost at after getRedis#0: nd = ret0
+//@   call getRedis#0: assert arg_key == key
+//@   call PersistCtx#0: assert arg_recv == nd && arg_key == key
+//@ func (cs clusterStore) PfaddCtx
+//@   property C15
+//@   requires cs.dispatcher != nil && hash.hInv(cs.dispatcher)
+//@   ghost at after getRedis#0: nd = ret0
+//@   call getRedis#0: assert arg_key == key
+//@   call PfaddCtx#0: assert arg_recv == nd && arg_key == key
+//@ func (cs clusterStore) PfcountCtx
+//@   property C15
+//@   requires cs.dispatcher != nil && hash.hInv(cs.dispatcher)
+//@   ghost at after getRedis#0: nd = ret0
+//@   call getRedis#0: assert arg_key == key
+//@   call PfcountCtx#0: assert arg_recv == nd && arg_key == key
+//@ func (cs clusterStore) RpushCtx
+//@   property C15
+//@   requires cs.dispatcher != nil && hash.hInv(cs.dispatcher)
+//@   ghost at after getRedis#0: nd = ret0
+//@   call getRedis#0: assert arg_key == key
+//@   call RpushCtx#0: assert arg_recv == nd && arg_key == key
+//@ func (cs clusterStore) SaddCtx
+//@   property C15
+//@   requires cs.dispatcher != nil && hash.hInv(cs.dispatcher)
+//@   ghost at after getRedis#0: nd = ret0
+//@   call getRedis#0: assert arg_key == key
+//@   call SaddCtx#0: assert arg_recv == nd && arg_key == key
+//@ func (cs clusterStore) ScardCtx
+//@   property C15
+//@   requires cs.dispatcher != nil && hash.hInv(cs.dispatcher)
+//@   ghost at after getRedis#0: nd = ret0
+//@   call getRedis#0: assert arg_key == key
+//@   call ScardCtx#0: assert arg_recv == nd && arg_key == key
+//@ func (cs clusterStore) SetCtx
+//@   property C15
+//@   requires cs.dispatcher != nil && hash.hInv(cs.dispatcher)
+//@   ghost at after getRedis#0: nd = ret0
+//@   call getRedis#0: assert arg_key == key
+//@   call SetCtx#0: assert arg_recv == nd && arg_key == key
+//@ func (cs clusterStore) SetexCtx
+//@   property C15
+//@   requires cs.dispatcher != nil && hash.hInv(cs.dispatcher) && seconds >= 1
+//@   ghost at after getRedis#0: nd = ret0
+//@   call getRedis#0: assert arg_key == key
+//@   call SetexCtx#0: assert arg_recv == nd && arg_key == key
+//@ func (cs clusterStore) SetnxCtx
+//@   property C15
+//@   requires cs.dispatcher != nil && hash.hInv(cs.dispatcher)
+//@   ghost at after getRedis#0: nd = ret0
+//@   call getRedis#0: assert arg_key == key
+//@   call SetnxCtx#0: assert arg_recv == nd && arg_key == key
+//@ func (cs clusterStore) SetnxExCtx
+//@   property C15
+//@   requires cs.dispatcher != nil && hash.hInv(cs.dispatcher) && seconds >= 1
+//@   ghost at after getRedis#0: nd = ret0
+//@   call getRedis#0: assert arg_key == key
+//@   call SetnxExCtx#0: assert arg_recv == nd && arg_key == key
+//@ func (cs clusterStore) GetSetCtx
+//@   property C15
+//@   requires cs.dispatcher != nil && hash.hInv(cs.dispatcher)
+//@   ghost at after getRedis#0: nd = ret0
+//@   call getRedis#0: assert arg_key == key
+//@   call GetSetCtx#0: assert arg_recv == nd && arg_key == key
+//@ func (cs clusterStore) SismemberCtx
+//@   property C15
+//@   requires cs.dispatcher != nil && hash.hInv(cs.dispatcher)
+//@   ghost at after getRedis#0: nd = ret0
+//@   call getRedis#0: assert arg_key == key
+//@   call SismemberCtx#0: assert arg_recv == nd && arg_key == key
+//@ func (cs clusterStore) SmembersCtx
+//@   property C15
+//@   requires cs.dispatcher != nil && hash.hInv(cs.dispatcher)
+//@   ghost at after getRedis#0: nd = ret0
+//@   call getRedis#0: assert arg_key == key
+//@   call SmembersCtx#0: assert arg_recv == nd && arg_key == key
+//@ func (cs clusterStore) SpopCtx
+//@   property C15
+//@   requires cs.dispatcher != nil && hash.hInv(cs.dispatcher)
+//@   ghost at after getRedis#0: nd = ret0
+//@   call getRedis#0: assert arg_key == key
+//@   call SpopCtx#0: assert arg_recv == nd && arg_key == key
+//@ func (cs clusterStore) SrandmemberCtx
+//@   property C15
+//@   requires cs.dispatcher != nil && hash.hInv(cs.dispatcher)
+//@   ghost at after getRedis#0: nd = ret0
+//@   call getRedis#0: assert arg_key == key
+//@   call SrandmemberCtx#0: assert arg_recv == nd && arg_key == key
+//@ func (cs clusterStore) SremCtx
+//@   property C15
+//@   requires cs.dispatcher != nil && hash.hInv(cs.dispatcher)
+//@   ghost at after getRedis#0: nd = ret0
+//@   call getRedis#0: assert arg_key == key
+//@   call SremCtx#0: assert arg_recv == nd && arg_key == key
+//@ func (cs clusterStore) SscanCtx
+//@   property C15
+//@   requires cs.dispatcher != nil && hash.hInv(cs.dispatcher)
+//@   ghost at after getRedis#0: nd = ret0
+//@   call getRedis#0: assert arg_key == key
+//@   call SscanCtx#0: assert arg_recv == nd && arg_key == key
+//@ func (cs clusterStore) TtlCtx
+//@   property C15
+//@   requires cs.dispatcher != nil && hash.hInv(cs.dispatcher)
+//@   ghost at after getRedis#0: nd = ret0
+//@   call getRedis#0: assert arg_key == key
+//@   call TtlCtx#0: assert arg_recv == nd && arg_key == key
+//@ func (cs clusterStore) ZaddFloatCtx
+//@   property C15
+//@   requires cs.dispatcher != nil && hash.hInv(cs.dispatcher)
+//@   ghost at after getRedis#0: nd = ret0
+//@   call getRedis#0: assert arg_key == key
+//@   call ZaddFloatCtx#0: assert arg_recv == nd && arg_key == key
+//@ func (cs clusterStore) ZaddsCtx
+//@   property C15
+//@   requires cs.dispatcher != nil && hash.hInv(cs.dispatcher)
+//@   ghost at after getRedis#0: nd = ret0
+//@   call getRedis#0: assert arg_key == key
+//@   call ZaddsCtx#0: assert arg_recv == nd && arg_key == key
+//@ func (cs clusterStore) ZcardCtx
+//@   property C15
+//@   requires cs.dispatcher != nil && hash.hInv(cs.dispatcher)
+//@   ghost at after getRedis#0: nd = ret0
+//@   call getRedis#0: assert arg_key == key
+//@   call ZcardCtx#0: assert arg_recv == nd && arg_key == key
+//@ func (cs clusterStore) ZcountCtx
+//@   property C15
+//@   requires cs.dispatcher != nil && hash.hInv(cs.dispatcher)
+//@   ghost at after getRedis#0: nd = ret0
+//@   call getRedis#0: assert arg_key == key
+//@   call ZcountCtx#0: assert arg_recv == nd && arg_key == key
+//@ func (cs clusterStore) ZincrbyCtx
+//@   property C15
+//@   requires cs.dispatcher != nil && hash.hInv(cs.dispatcher)
+//@   ghost at after getRedis#0: nd = ret0
+//@   call getRedis#0: assert arg_key == key
+//@   call ZincrbyCtx#0: assert arg_recv == nd && arg_key == key
+//@ func (cs clusterStore) ZrankCtx
+//@   property C15
+//@   requires cs.dispatcher != nil && hash.hInv(cs.dispatcher)
+//@   ghost at after getRedis#0: nd = ret0
+//@   call getRedis#0: assert arg_key == key
+//@   call ZrankCtx#0: assert arg_recv == nd && arg_key == key
+//@ func (cs clusterStore) ZrangeCtx
+//@   property C15
+//@   requires cs.dispatcher != nil && hash.hInv(cs.dispatcher)
+//@   ghost at after getRedis#0: nd = ret0
+//@   call getRedis#0: assert arg_key == key
+//@   call ZrangeCtx#0: assert arg_recv == nd && arg_key == key
+//@ func (cs clusterStore) ZrangeWithScoresCtx
+//@   property C15
+//@   requires cs.dispatcher != nil && hash.hInv(cs.dispatcher)
+//@   ghost at after getRedis#0: nd = ret0
+//@   call getRedis#0: assert arg_key == key
+//@   call ZrangeWithScoresCtx#0: assert arg_recv == nd && arg_key == key
+//@ func (cs clusterStore) ZrangebyscoreWithScoresCtx
+//@   property C15
+//@   requires cs.dispatcher != nil && hash.hInv(cs.dispatcher)
+//@   ghost at after getRedis#0: nd = ret0
+//@   call getRedis#0: assert arg_key == key
+//@   call ZrangebyscoreWithScoresCtx#0: assert arg_recv == nd && arg_key == key
+//@ func (cs clusterStore) ZrangebyscoreWithScoresAndLimitCtx
+//@   property C15
+//@   requires cs.dispatcher != nil && hash.hInv(cs.dispatcher)
+//@   ghost at after getRedis#0: nd = ret0
+//@   call getRedis#0: assert arg_key == key
+//@   call ZrangebyscoreWithScoresAndLimitCtx#0: assert arg_recv == nd && arg_key == key
+//@ func (cs clusterStore) ZremCtx
+//@   property C15
+//@   requires cs.dispatcher != nil && hash.hInv(cs.dispatcher)
+//@   ghost at after getRedis#0: nd = ret0
+//@   call getRedis#0: assert arg_key == key
+//@   call ZremCtx#0: assert arg_recv == nd && arg_key == key
+//@ func (cs clusterStore) ZremrangebyrankCtx
+//@   property C15
+//@   requires cs.dispatcher != nil && hash.hInv(cs.dispatcher)
+//@   ghost at after getRedis#0: nd = ret0
+//@   call getRedis#0: assert arg_key == key
+//@   call ZremrangebyrankCtx#0: assert arg_recv == nd && arg_key == key
+//@ func (cs clusterStore) ZremrangebyscoreCtx
+//@   property C15
+//@   requires cs.dispatcher != nil && hash.hInv(cs.dispatcher)
+//@   ghost at after getRedis#0: nd = ret0
+//@   call getRedis#0: assert arg_key == key
+//@   call ZremrangebyscoreCtx#0: assert arg_recv == nd && arg_key == key
+//@ func (cs clusterStore) ZrevrangeCtx
+//@   property C15
+//@   requires cs.dispatcher != nil && hash.hInv(cs.dispatcher)
+//@   ghost at after getRedis#0: nd = ret0
+//@   call getRedis#0: assert arg_key == key
+//@   call ZrevrangeCtx#0: assert arg_recv == nd && arg_key == key
+//@ func (cs clusterStore) ZrevrangebyscoreWithScoresCtx
+//@   property C15
+//@   requires cs.dispatcher != nil && hash.hInv(cs.dispatcher)
+//@   ghost at after getRedis#0: nd = ret0
+//@   call getRedis#0: assert arg_key == key
+//@   call ZrevrangebyscoreWithScoresCtx#0: assert arg_recv == nd && arg_key == key
+//@ func (cs clusterStore) ZrevrangebyscoreWithScoresAndLimitCtx
+//@   property C15
+//@   requires cs.dispatcher != nil && hash.hInv(cs.dispatcher)
+//@   ghost at after getRedis#0: nd = ret0
+//@   call getRedis#0: assert arg_key == key
+//@   call ZrevrangebyscoreWithScoresAndLimitCtx#0: assert arg_recv == nd && arg_key == key
+//@ func (cs clusterStore) ZrevrankCtx
+//@   property C15
+//@   requires cs.dispatcher != nil && hash.hInv(cs.dispatcher)
+//@   ghost at after getRedis#0: nd = ret0
+//@   call getRedis#0: assert arg_key == key
+//@   call ZrevrankCtx#0: assert arg_recv == nd && arg_key == key
+//@ func (cs clusterStore) ZscoreCtx
+//@   property C15
+//@   requires cs.dispatcher != nil && hash.hInv(cs.dispatcher)
+//@   ghost at after getRedis#0: nd = ret0
+//@   call getRedis#0: assert arg_key == key
+//@   call ZscoreCtx#0: assert arg_recv == nd && arg_key == key
